@@ -225,6 +225,8 @@ def formula_to_json(f, tree_names=None):
             if x.id in tree_names:
                 return tree_names[x.id]
             raise Unprojectable("tree argument without a name")
+        if isinstance(x, L.Constant) and not x.is_numeric():
+            return "start"      # the top-level constant, whatever the specification calls it
         return x.name
 
     def walk(g):
@@ -270,6 +272,7 @@ def formula_to_json(f, tree_names=None):
             term = z3_to_term(g.formula)
             # variables already instantiated by (possibly open) trees
             sub = {v.name: ref(t) for v, t in g.substitutions.items()}
+            sub.update({v.name: "start" for v in g.free_variables() if isinstance(v, L.Constant) and not v.is_numeric()})
 
             def rename(t):
                 if t["k"] == "var" and t["v"] in sub:
